@@ -16,7 +16,8 @@ RULE = ("schemas with constant, callable and absent defaults on every field fami
         "mutations: after each step the values AND the user-defined flag of every path (all depths, list items) are "
         "compared with a prediction computed from the state observed before the step; non-trivial = >= 1 accepted "
         "assignment, >= 1 rejected one and >= 1 reset judged; distinct = distinct (schema, history)")
-REQUIRED = ("items_moved_to_a_second_configuration", "trees_loaded_without_the_final_validation", "schemas_with_keys_named_like_config_methods", "forwarding_setter_assignments_judged:partly-rejected", "equal_items_with_other_status_judged", "dynamic_sections_reset_after_runtime_fields", "callable_object_defaults", "dotted_status_queries", "schemas_with_unnormalised_defaults", "fresh_default_checks", "callable_default_checks", "flag_maps_compared", "accepted_assignments_judged",
+REQUIRED = ("documents_with_includes_judged", "kept_sections_assigned_back_judged:after-replacement",
+            "items_moved_to_a_second_configuration", "trees_loaded_without_the_final_validation", "schemas_with_keys_named_like_config_methods", "forwarding_setter_assignments_judged:partly-rejected", "equal_items_with_other_status_judged", "dynamic_sections_reset_after_runtime_fields", "callable_object_defaults", "dotted_status_queries", "schemas_with_unnormalised_defaults", "fresh_default_checks", "callable_default_checks", "flag_maps_compared", "accepted_assignments_judged",
             "rejected_ops_judged", "resets_judged", "loads_judged")
 ASSUMPTIONS = ["in-place mutation of a default list/dict does not make it user-defined (the statement says 'assigned or "
                "loaded')", "loads that fail are not judged (their partial effect is unspecified)"]
@@ -55,6 +56,101 @@ def _add_raw_defaults(rng, node, env):
     return n
 
 
+INC_KEY = "inc0"
+
+
+def _add_include_holders(rng, schema):
+    """Include fields in nested scopes of every shape: in existing sections / configuration types (not through lists), at
+    the root, and at the bottom (sometimes also half-way) of a new chain of sections below the root whose levels are plain
+    sections or configuration types in any order (a type inside a type, a type inside a section inside a type, ...).
+    Returns the paths of the scopes that have an include field ('' = the root)."""
+    def inc_field():
+        return {"kind": "field", "key": INC_KEY, "family": "include", "params": ({"startdir": "$DIR"} if rng.random() < 0.5 else {})}
+
+    holders = []
+    if rng.random() < 0.7 and all(ch["key"] != "incl0" for ch in schema["fields"]):
+        kinds = [rng.choice(["schema", "ctype"]) for _ in range(rng.choice([1, 2, 2, 3, 3]))]
+        top = cur = None
+        path = ""
+        for lv, kind in enumerate(kinds):
+            body = gen.gen_schema(rng, depth=0, width=rng.choice([2, 3]), defaults=0.8, dynamic=0)
+            key = "incl0" if lv == 0 else "lv%d" % lv
+            body["key"] = key
+            node = body if kind == "schema" else {"kind": "ctype", "key": key, "name": "TI%d" % lv, "schema": dict(body, key="")}
+            path = (path + "." if path else "") + key
+            if lv == len(kinds) - 1 or rng.random() < 0.25:
+                model.fields_of(node)["fields"].insert(rng.randrange(len(body["fields"]) + 1), inc_field())
+                holders.append(path)
+            if cur is None:
+                top = node
+            else:
+                model.fields_of(cur)["fields"].insert(rng.randrange(len(model.fields_of(cur)["fields"]) + 1), node)
+            cur = node
+        schema["fields"].insert(rng.randrange(len(schema["fields"]) + 1), top)
+    old = [(p, nd) for p, nd in history.all_paths(schema) if nd["kind"] in ("schema", "ctype") and "[]" not in p
+           and not history.under(p, "incl0") and all(ch["key"] != INC_KEY for ch in model.fields_of(nd)["fields"])]
+    if old and rng.random() < 0.5:
+        p, nd = rng.choice(old)
+        model.fields_of(nd)["fields"].append(inc_field())
+        holders.append(p)
+    if rng.random() < 0.25 and all(ch["key"] != INC_KEY for ch in schema["fields"]):
+        schema["fields"].append(inc_field())
+        holders.append("")
+    return holders
+
+
+def _include_ops(rng, schema, env, holders):
+    """Document loads whose document names, in one or several scopes, a file to include; the file gives values for fields
+    of that scope the document itself does not mention (so the two never disagree)."""
+    ops = []
+    for n in range(rng.choice([1, 2, 2, 3])):
+        tree = gen.tree_for(rng, schema, env, valid=True, partial=0.5)
+        chosen = [h for h in holders if rng.random() < 0.7] or [rng.choice(holders)]
+        scopes = []
+        for i, hp in enumerate(chosen):
+            scope = tree
+            for seg in (hp.split(".") if hp else []):
+                scope = scope.setdefault(seg, {})
+            node = spec.node_at(schema, hp) if hp else schema
+            incf = [ch for ch in model.fields_of(node)["fields"] if ch["key"] == INC_KEY][0]
+            name = "c12inc%d_%d.cfg" % (n, i)
+            scope[INC_KEY] = name if incf["params"].get("startdir") and rng.random() < 0.5 else "$DIR/" + name
+            scopes.append((hp, scope, node, name))
+        incs = []
+        for hp, scope, node, name in scopes:
+            given = {}
+            for k in list(scope):
+                if k != INC_KEY and not isinstance(scope[k], dict) and rng.random() < 0.5:
+                    given[k] = scope.pop(k)
+            for k, v in gen.tree_for(rng, node, env, valid=True, partial=0.4).items():
+                if k not in scope and k not in given:
+                    given[k] = v
+            incs.append({"holder": hp, "file": name, "tree": given})
+        ops.append({"op": "loads_include", "tree": tree, "fmt": rng.choice(history.FORMATS), "includes": incs})
+    return ops
+
+
+def _section_back_ops(rng, schema, env):
+    """A section object is kept, the section is replaced (a map assigned, a tree loaded, a reset - or nothing at all) and
+    the kept object is assigned back."""
+    subs = [(p, nd) for p, nd in history.all_paths(schema) if nd["kind"] in ("schema", "ctype")]
+    ops = []
+    for _ in range(rng.choice([1, 2, 3]) if subs else 0):
+        p, nd = rng.choice(subs)
+        hows = ["dict", "dict", "reset", "reset", "none"] + (["load_tree", "load_tree"] if "[]" not in p else [])
+        op = {"op": "section_back", "path": p, "how": rng.choice(hows), "route": rng.choice(["attr", "item"]),
+              "tree": gen.tree_for(rng, nd, env, valid=True, partial=0.5)}
+        leaves = [ch for ch in model.stored_children(nd)
+                  if ch["kind"] == "field" and ch["family"] in ("int", "str", "port", "float", "bool", "host")]
+        if leaves and rng.random() < 0.8:
+            ch = rng.choice(leaves)
+            v = gen.one_value(rng, ch, "valid", env)
+            if v is not None:
+                op["touch"] = [ch["key"], v]
+        ops.append(op)
+    return ops
+
+
 def generate(rng, ctx):
     thorough = ctx.tier == "thorough"
     schema = gen.gen_schema(rng, depth=rng.choice([1, 2, 3] if thorough else [1, 2, 2]), width=rng.choice([3, 4, 5]),
@@ -70,6 +166,7 @@ def generate(rng, ctx):
             if free:
                 nd["key"] = rng.choice(free)
         schema["method_like_names"] = True
+    inc_holders = _add_include_holders(rng, schema) if rng.random() < 0.4 else []
     env = gen.GEN_ENV
     raw = _add_raw_defaults(rng, schema, env)
     _add_callables(rng, schema)
@@ -129,6 +226,14 @@ def generate(rng, ctx):
             out[at:at] = [{"op": "set", "route": "attr", "path": p + "." + rng.choice(["extra1", "zz9"]), "value": rng.choice([1, "x", [1, 2]]),
                            "dynamic": True},
                           {"op": "reset", "path": p, "route": rng.choice(["parent", "dotted"]), "after_dynamic": True}]
+    # documents that include files, in scopes of every nesting shape
+    if inc_holders:
+        for op in _include_ops(rng, schema, env, inc_holders):
+            out.insert(rng.randrange(len(out) + 1), op)
+    # kept section objects assigned back after the section was replaced
+    if rng.random() < 0.5:
+        for op in _section_back_ops(rng, schema, env):
+            out.insert(rng.randrange(len(out) + 1), op)
     return {"schema": schema, "ops": out, "raw_defaults": raw}
 
 
@@ -176,6 +281,119 @@ def dotted_flags_problem(cc, cfg, flags, res):
     return None
 
 
+def _op_loads_include(drv, op, res):
+    """cfg.loads of a document that names include files; predicted as the load of the one tree in which every included
+    file's (disjoint) entries stand in the scope that names the file."""
+    import copy
+    import os
+
+    from ..trees import in_domain
+
+    cc = drv.cc
+    op = spec.resolve(op, drv.mapping)
+    fmt, tree = op["fmt"], op["tree"]
+    merged = copy.deepcopy(tree)
+    if not history._plain_tree(tree) or not in_domain(fmt, tree):
+        return None
+    try:
+        codec = cc.ConfigFormat.get(fmt)
+        for inc in op["includes"]:
+            if not history._plain_tree(inc["tree"]) or not in_domain(fmt, inc["tree"]):
+                return None
+            scope = merged
+            for seg in (inc["holder"].split(".") if inc["holder"] else []):
+                scope = scope[seg]
+            if set(scope) & set(inc["tree"]):
+                return None
+            scope.update(copy.deepcopy(inc["tree"]))
+            path = os.path.join(drv.ctx.dir, inc["file"])
+            with open(path, "wb") as fp:
+                fp.write(codec.dumps(drv.cfg, inc["tree"]))
+            drv.env["paths"][path] = "file"
+        doc = codec.dumps(drv.cfg, tree)
+    except Exception:
+        return None
+    before = drv.snapshot()
+    label, pred = drv._predict_load(merged, before)
+    if pred is None:
+        pred = history.Prediction(None, None)
+        pred.unpredicted = True
+    if fmt in ("json", "yaml", "xml") and len(doc) % 3 == 0:
+        try:
+            doc = doc.decode()
+        except UnicodeDecodeError:
+            pass
+    exc = drv._run(lambda: drv.cfg.loads(doc, fmt))
+    return {"kind": "loads", "path": "", "raised": exc, "label": label, "pred": pred, "before": before, "listed": False, "fmt": fmt,
+            "node": {"kind": "document-with-includes"}, "tag": "documents_with_includes_judged"}
+
+
+def _op_section_back(drv, op, res):
+    """old = cfg.sub; the section is replaced; cfg.sub = old: the assigned object is the section's value again - its
+    values, and the status of each of its fields - and the section reads user-defined."""
+    import copy
+
+    from ..common import defined_map, plain as _plain
+
+    cc, cfg = drv.cc, drv.cfg
+    op = spec.resolve(op, drv.mapping)
+    path = drv.concrete(op["path"])
+    if path is None:
+        return None
+    nd = drv.node(path)
+    parent_path, key = spec.split_parent(path)
+    try:
+        parent = spec.get_path(cfg, parent_path) if parent_path else cfg
+        saved = spec.get_path(cfg, path)
+    except Exception:
+        return None
+    if nd is None or not isinstance(parent, cc.Config) or not isinstance(saved, cc.Config):
+        return None
+    if op.get("touch"):
+        try:
+            saved[op["touch"][0]] = spec.realize(cc, op["touch"][1])
+        except Exception:
+            pass
+    how = op["how"]
+    try:
+        if how == "dict":
+            parent[key] = spec.realize(cc, copy.deepcopy(op["tree"]))
+        elif how == "reset":
+            cc.reset_value(parent, key)
+        elif how == "load_tree":
+            tree = spec.realize(cc, copy.deepcopy(op["tree"]))
+            for seg in reversed(path.split(".")):
+                tree = {seg: tree}
+            cfg.load_tree(tree)
+    except Exception:
+        pass
+    try:
+        # (a tree load builds the enclosing sections anew as well: the holder is looked up again)
+        parent = spec.get_path(cfg, parent_path) if parent_path else cfg
+        replaced = spec.get_path(cfg, path) is not saved
+    except Exception:
+        return None
+    if not isinstance(parent, cc.Config):
+        return None
+    before = drv.snapshot()
+    want_values, want_flags = _plain(saved), defined_map(saved, path)
+    if op["route"] == "attr" or "[" in path:
+        exc = drv._run(lambda: setattr(parent, key, saved))
+    else:
+        exc = drv._run(lambda: cfg.__setitem__(path, saved))
+    pred = history.Prediction(history.clone(before.values), dict(before.flags))
+    history.pset(pred.values, path, want_values)
+    history.drop_flags(pred.flags, path)
+    pred.flags.update(want_flags)
+    pred.flags[path] = True
+    return {"kind": "set-sub", "path": path, "raised": exc, "label": True, "pred": pred, "before": before, "listed": True,
+            "node": {"kind": "kept-section-%s" % (("after-" + how) if replaced else "still-in-place")},
+            "tag": "kept_sections_assigned_back_judged" + (":after-replacement" if replaced else "")}
+
+
+LOCAL_OPS = {"loads_include": _op_loads_include, "section_back": _op_section_back}
+
+
 def run(case, ctx, res):
     env = env_of(ctx)
     drv = history.Driver(ctx, res, case["schema"], env)
@@ -214,7 +432,7 @@ def run(case, ctx, res):
     # (2) the history
     acc = rej = resets = 0
     for idx, op in enumerate(case["ops"]):
-        out = drv.step(op)
+        out = LOCAL_OPS[op["op"]](drv, op, res) if op["op"] in LOCAL_OPS else drv.step(op)
         if out is None:
             res.count("ops_skipped")
             continue
@@ -269,6 +487,8 @@ def run(case, ctx, res):
             return
         if op.get("equal_items"):
             res.count("equal_items_with_other_status_judged")
+        if out.get("tag"):
+            res.count(out["tag"])
         if kind in ("set", "set-sub", "ctor"):
             acc += 1
             res.count("accepted_assignments_judged")
